@@ -11,6 +11,7 @@ import xyzpy.gen.cropping as cp
 from xyzpy.gen.combo_runner import combo_runner
 from xyzpy.utils import XYZError
 
+CONFORMANCE = ("fakefs",)
 FUNCS = CROP_FUNCS
 
 
